@@ -178,6 +178,10 @@ class Pipe:
     def deliver(self, n=None) -> None:
         """Move in-flight server bytes into the client's receive buffer (concurrent drivers only)."""
         k = len(self.in_flight) if not n else min(n, len(self.in_flight))
+        arrived = len(self.sent) - len(self.in_flight)
+        if arrived < self.noseg_until and not self.world.seg_everything:
+            # SOCKS negotiation replies are never split (httpcore parses each from one read(); see DESIGN 8.5 / 8.7)
+            k = max(k, min(len(self.in_flight), self.noseg_until - arrived))
         if not self.client_closed and not self.broken:
             self.inbound += self.in_flight[:k]
         del self.in_flight[:k]
